@@ -148,10 +148,15 @@ def programs(tier):
         progs += tees[::3]
         # tee_map followed / preceded by an operator
         progs += [[['map', 'inc']] + t for t in tees[::40]] + [t + [['count']] for t in tees[::40]]
+        # flat_map needs a list/pair producer in front: every operator behind [producer, flat_map]
+        for head in ([['map', 'dup'], ['flat_map']], [['map', 'pairup'], ['flat_map']]):
+            progs += [head + p for p, _ in pipelines(1)]
     else:
         progs += [p for p, _ in pipelines(3)]
         core8 = [OPS_T[i] for i in (0, 6, 9, 17, 19, 29, 31, 35)]        # map, filter, scan, count(reduce), sum(reduce), last, take(1), duc
         progs += [p for p, _ in pipelines(4, 'I', core8)]
+        for head in ([['map', 'dup'], ['flat_map']], [['map', 'pairup'], ['flat_map']]):
+            progs += [head + p for p, _ in pipelines(2, 'I', core8)]
         tees = tee_programs()
         progs += tees
         progs += [[['map', 'inc']] + t for t in tees[::5]] + [t + [o] for t in tees[::5] for o in (['count'], ['last'], ['to_list'])]
